@@ -60,7 +60,11 @@ def _wrap_rom_function(rom, uf=False):
 
 
 def _merged_mem_update(orig):
-    def _mem_update(self, net):
+    def _mem_update(self, net, *args, **kw):
+        if args or kw:
+            # a different calling convention than the one this wrapper merges (results handed over through arguments): the
+            # real method runs as it is
+            return orig(self, net, *args, **kw)
         if net.op != '@':
             return orig(self, net)
         mem = self.memvalue.get(net.op_param[0])
@@ -68,11 +72,30 @@ def _merged_mem_update(orig):
             return orig(self, net)
         snap, snap_p = mem.arr, mem.present
 
+        def others():
+            # everything else the simulator object holds, by identity and size: the merge below is only right if the method's
+            # sole effect is on this memory
+            out = {}
+            for k_, v_ in vars(self).items():
+                out[k_] = (id(v_), len(v_) if isinstance(v_, (dict, list, set, tuple)) else None)
+                if isinstance(v_, dict) and k_ != 'value':
+                    for k2, v2 in v_.items():
+                        if isinstance(v2, (dict, list, set)):
+                            out[(k_, id(k2))] = (id(v2), len(v2))
+            return out
+        before = others()
+        touched = [False]
+
         def body():
             mem.arr, mem.present = snap, snap_p
             ret = orig(self, net)
+            if others() != before:
+                touched[0] = True
             return mem.arr, mem.present, ret
         paths = explore(body, lazy=True)
+        if touched[0]:
+            raise sym.HarnessError('Simulation._mem_update changes simulator state other than the written memory: the state-merging '
+                                   'wrapper of vf/simdrv.py does not model that (revisit _merged_mem_update)')
         if any(p.exc is None and p.result[2] is not None for p in paths):
             # this _mem_update hands something back to its caller instead of (only) updating the memory: no merging, the
             # real method runs as it is and the exploration forks where it branches
